@@ -435,6 +435,8 @@ class Translator:
             if (p[1], mu[1], sd[1]) == ("R", "R", "R"):
                 return ("(gaussPdf %s %s %s)" % (mu[0], sd[0], p[0]), "R")      # external: scipy's normal density
             raise Unsupported("stats.norm.pdf on non-reals")
+        if fsrc in self.spec.get("identity_calls", []) and len(args) == 1:
+            return self.expr(args[0], env)       # a packing helper (ensure_scalar): the value itself
         if fsrc.startswith("super()."):
             meth = fsrc[len("super()."):]
             cls = env.get("__cls__", self.cls)
@@ -945,6 +947,15 @@ RULE_SPECS = [
     for kind in ("Sphere", "Spheres", "Spheroid", "Cylinder", "Other")
 ]
 
+MODEL_SPECS = [
+    # the array reductions are inputs: N = data.size, the mean log noise level, the sum of squared scaled residuals
+    dict(cls="Model", fn="_lnlike", lean="Model_lnlike", ret="R", identity_calls=["ensure_scalar"],
+         params=[("data.size", "N", "R"), ("np.mean(np.log(ensure_array(noise_sd)))", "meanlog", "R"),
+                 ("(self._residuals(pars, data, noise_sd) ** 2).sum()", "ss", "R")], ignore_params=["pars", "data"]),
+    dict(cls="LimitOverlaps", fn="check", lean="LimitOverlaps_check", ret="B",
+         params=[("s.largest_overlap()", "largest", "R"), ("np.min(s.r)", "minR", "R"), ("self.fraction", "fraction", "R")], ignore_params=["s"]),
+]
+
 FILES = {
     "PyPrior": ("holopy/core/prior.py", ["HoloModel.ExtArith"], PRIOR_SPECS, "pyPriorFailures"),
     "PyAcc": ("holopy/core/io/io.py", ["HoloModel.Scalar"], ACC_SPECS, "pyAccFailures"),
@@ -952,6 +963,7 @@ FILES = {
     "PyMieLens": ("holopy/scattering/theory/mielens.py", ["HoloModel.CxExtra"], MIELENS_SPECS, "pyMieLensFailures"),
     "PyLens": ("holopy/scattering/theory/lens.py", ["HoloModel.CxExtra"], LENS_SPECS, "pyLensFailures"),
     "PyRule": ("holopy/scattering/interface.py", ["HoloModel.Cluster"], RULE_SPECS, "pyRuleFailures"),
+    "PyModel": ("holopy/inference/model.py", ["HoloModel.Scalar"], MODEL_SPECS, "pyModelFailures"),
 }
 
 
